@@ -253,6 +253,54 @@ theorem C05_init_refines [DecidableEq V] (W : World V) (LL : LowerLaws W) (c : C
     fun e h => C05_failfast_sound W LL P hwf o data hnd e h,
     fun es hm h => C05_collected_exact W LL P hwf o data hnd es hm h⟩
 
+/-! ### class hierarchies -/
+
+theorem buildAll_snoc (W : World V) (decls : List (ClassDecl V)) (c : ClassDecl V) :
+    buildAll W (decls ++ [c]) = buildAll W decls ++ [mkParserIn W (buildAll W decls) c] := by
+  simp [buildAll, List.foldl_append]
+
+theorem buildAll_length (W : World V) (decls : List (ClassDecl V)) : (buildAll W decls).length = decls.length := by
+  induction decls using Utv.List.rev_ind with
+  | nil => rfl
+  | snoc l c ih => rw [buildAll_snoc, List.length_append, List.length_append, ih]; rfl
+
+/-- **What a class's parser is does not depend on the classes declared after it** — in particular, declaring a
+subclass (with whatever `Options`) leaves the fields, alias maps and case-insensitive names of its bases as they
+were.  (In the code the subclass takes over the very same ParserField objects; the correspondence run parses the
+base again after its subclasses were declared.) -/
+theorem C05_later_declarations_irrelevant (W : World V) (decls more : List (ClassDecl V)) (i : Nat)
+    (h : i < decls.length) : (buildAll W (decls ++ more))[i]? = (buildAll W decls)[i]? := by
+  induction more using Utv.List.rev_ind with
+  | nil => simp
+  | snoc l c ih =>
+    rw [← List.append_assoc, buildAll_snoc, List.getElem?_append_left, ih]
+    rw [buildAll_length, List.length_append]; omega
+
+/-- **C05 for any class of a hierarchy**, from the raw declarations (bases, dropped names, fields of each body,
+`__options__` given or found on the first base): `Cls.__from__(data, options=runtime)` succeeds iff the contract of
+the parser the class ends up with has no violation, a fail-fast run raises one of the violations, collecting reports
+all of them. -/
+theorem C05_hierarchy_refines [DecidableEq V] (W : World V) (LL : LowerLaws W) (decls : List (ClassDecl V))
+    (target : Nat) (B : Built V) (hB : (buildAll W decls)[target]? = some B)
+    (runtime : Option (Opts V)) (data : List (Key × V)) (hnd : (data.map (·.1)).Nodup)
+    (hwf : B.parser.wf W = true) :
+    let o := (runtime.getD B.opts).normalise
+    ∃ out, initSchemaH {} W decls target runtime data = some out
+      ∧ ((∃ m a, out = .ok m a) ↔ (contract W B.parser o data).errs = [])
+      ∧ (∀ e, out = .raised e → e ∈ (contract W B.parser o data).errs)
+      ∧ (∀ es, o.maxErrors = none → out = .collected es → SetEq es (contract W B.parser o data).errs)
+      ∧ (∀ m a, out = .ok m a → ∀ kf ∈ B.parser.fields,
+            dget kf.2.attname a = dget kf.2.name (contract W B.parser o data).result
+            ∧ dget kf.2.name m = (dget kf.2.name (contract W B.parser o data).result).filter
+                (fun v => !noOutput W o kf.2 v)) := by
+  intro o
+  refine ⟨finish {} W B.parser o (parseData {} W B.parser o data), ?_, ?_, ?_, ?_, ?_⟩
+  · unfold initSchemaH; rw [hB]; rfl
+  · exact C05_success_iff W LL B.parser hwf o data hnd
+  · exact fun e h => C05_failfast_sound W LL B.parser hwf o data hnd e h
+  · exact fun es hm h => C05_collected_exact W LL B.parser hwf o data hnd es hm h
+  · exact fun m a h => (C05_attr_view W LL B.parser hwf o data hnd m a h).1
+
 /-! ### Non-vacuity, and the behaviour before the fix patches (negation witnesses; the same inputs are
 replayed on the real code from harness/corpus/C05.jsonl) -/
 
@@ -301,6 +349,18 @@ theorem C05_legacy_required_callable_witness :
 
 example : (fieldFirst {} W₀ (mkParser W₀ cPred) cPred.opts []).errs
       = (contract W₀ (mkParser W₀ cPred) cPred.opts []).errs := by decide
+
+/-- `class Account(Schema): A: int` (key 1 = 'A') and `class Lenient(Account): __options__ = Options(case_insensitive=True); b: int = 0`:
+the field taken over stays case-sensitive (as `Account` set it up), the new one is case-insensitive; `Account` itself
+is what it was. -/
+def hAccount : ClassDecl Nat := { fields := [{ attname := 1 }], opts := {} }
+def hLenient : ClassDecl Nat :=
+  { fields := [{ attname := 3, default := some 0 }], opts := { caseInsensitive := true }, bases := [0] }
+
+example : ((buildAll W₀ [hAccount, hLenient])[1]?.map fun B => (B.parser.fields.map (·.1), B.parser.ciNames, B.parser.wf W₀))
+    = some ([1, 3], [3], true) := by decide
+example : (buildAll W₀ [hAccount, hLenient])[0]?.map (·.parser.ciNames) = (buildAll W₀ [hAccount])[0]?.map (·.parser.ciNames) := by
+  decide
 
 /-- a value dropped by the 'exclude' policy leaves the field as one that was not given: its default applies but it
 does not satisfy another field's dependency.  Before utype 107a5ff the default counted as a given value. -/
